@@ -1,4 +1,5 @@
 import RR.Model.Codec
+import RR.Model.Tcp
 import RR.Model.Au
 import RR.Model.Sigmf
 import RR.Model.Util
@@ -36,6 +37,17 @@ def handleReasm (args : String) : String :=
     | some t, some cs =>
       let (rest, vals) := feedAll t [] cs
       s!"{" ".intercalate (vals.map fun v => s!"{v.re},{v.im}")} | {rest.length}"
+    | _, _ => "bad-op"
+  | [] => "bad-op"
+
+/-- `tcp <ty> ; bytes of read 1 ; bytes of read 2 …`: what `TcpSource::work` pushes after each read -/
+def handleTcp (args : String) : String :=
+  match args.splitOn ";" with
+  | hd :: chunks =>
+    match (toks hd).head?.bind tyOf, chunks.mapM (fun c => nats (toks c)) with
+    | some t, some cs =>
+      let (_, outs) := tcpAll t [] cs
+      " ; ".intercalate (outs.map fun vals => " ".intercalate (vals.map fun v => s!"{v.re},{v.im}"))
     | _, _ => "bad-op"
   | [] => "bad-op"
 
